@@ -15,9 +15,6 @@
 (***************************************************************************)
 EXTENDS Clauses, TLC, Json, IOUtils
 
-SX == INSTANCE SequencesExt
-FX == INSTANCE FiniteSetsExt
-
 Rec == ndJsonDeserialize(IOEnv.TRACE)
 NRec == Len(Rec)
 
@@ -561,10 +558,18 @@ Crash ==
            tag == "crash." \o e.ek \o "." \o e.m
        IN  Advance(ResBad(Mis(e, o, tag, 0, 0, CRASH, {}), {tag}), << >>)
 
+\* the same call in two builds of the crate (prefetch feature on / off)
+XB ==
+    /\ IsEv("xb")
+    /\ LET e == Ev
+           o == [kind |-> e.kind, ty |-> e.ty]
+       IN  Advance(IF e.x = e.y THEN ResOk(1, {"rel.xbuild"})
+                   ELSE ResBad(Mis(e, o, "rel.xbuild", 0, 0, e.y, {e.x}), {"rel.xbuild"}), objs)
+
 Other ==
     /\ l <= NRec
     /\ Rec[l].k \notin {"reset", "newt", "newq", "newb", "meta", "qg", "relm", "relo", "uq", "mut",
-                        "conv", "drop", "eq", "ith", "thr", "pure", "crash"}
+                        "conv", "drop", "eq", "ith", "thr", "pure", "crash", "xb"}
     /\ Advance(ResOk(0, {}), objs)
 
 Finish ==
@@ -576,7 +581,7 @@ Finish ==
 Init == /\ l = 1 /\ objs = << >> /\ nbad = 0 /\ ncell = 0 /\ cov = {} /\ done = FALSE
 
 Next == \/ Reset \/ NewObj \/ Meta \/ QGrid \/ RelM \/ RelO \/ Uq \/ Mut \/ Conv \/ Drop
-        \/ EqEv \/ Ith \/ Thr \/ Pure \/ Crash \/ Other \/ Finish
+        \/ EqEv \/ Ith \/ Thr \/ Pure \/ Crash \/ XB \/ Other \/ Finish
 
 Spec == Init /\ [][Next]_vars
 
